@@ -8,6 +8,12 @@ Driver of the C07 section of the oracle.  Header `@ C07 <codec>` with codec one 
   parsestr <hex>          XxxParseToString(string)               -> <hex> | panic
   parsebytes <hex>        XxxParseToString([]byte)               -> <hex> | panic
   roundtrip <hex>         XxxParseToString(XxxFormatToString(s)) -> <hex> | panic
+  parsen <hex> <dstlen>   XxxParse(make([]byte,dstlen), bytes)   -> <n> <hex of dst[:n]> | panic
+                          (large stream: only the result prefix is compared)
+
+Inputs longer than 4096 bytes are evaluated by the linear-time `parseFast` (equal to the
+cursor model by `c07_fast_eq_model`); `parsen` with `dstlen < len(src)` always runs the
+cursor model (the harness keeps those inputs ≤ 4 KB).
 
 Range operations for the exhaustive extras (one 64-bit FNV-1a style digest per range; the
 harness folds the answers of the real functions in the same order and narrows a difference
@@ -21,6 +27,7 @@ down to one `format`/`roundtrip`/`parsestr` line):
                           `\ooo` (%03o) | `\xXX` (%02X) | `\UXXXXXXXX` (%08X) | `\uXXXX` (%04X)
 -/
 import Golib.Model.C07Enc
+import Golib.Model.C07Fast
 
 namespace Golib.C07
 open Golib.Proto
@@ -32,12 +39,14 @@ structure DrvCodec where
   pfx    : Bytes
   base   : Nat
   width  : Nat
+  /-- the decision function of the functional layer with O(1) length tests (`parseFast`) -/
+  decQ   : Bytes → Dec
 
 def codec? : String → Option DrvCodec
-  | "octal" => some ⟨octalFormat, octalBody, [92], 8, 3⟩
-  | "hex" => some ⟨hexFormat, hexBody, [92, 120], 16, 2⟩
-  | "unicode" => some ⟨unicodeFormat, unicodeBody, [92, 85], 16, 8⟩
-  | "utf16" => some ⟨utf16Format, utf16Body, [92, 117], 16, 4⟩
+  | "octal" => some ⟨octalFormat, octalBody, [92], 8, 3, octalDecQ⟩
+  | "hex" => some ⟨hexFormat, hexBody, [92, 120], 16, 2, hexDecQ⟩
+  | "unicode" => some ⟨unicodeFormat, unicodeBody, [92, 85], 16, 8, unicodeDecQ⟩
+  | "utf16" => some ⟨utf16Format, utf16Body, [92, 117], 16, 4, utf16DecQ⟩
   | _ => none
 
 /-! ### digests for the range operations -/
@@ -88,6 +97,10 @@ def showRes (r : Res Bytes) : String :=
   | .panic => "panic"
   | .fuel => "timeout"
 
+/-- `XxxParseToString`: the cursor model up to 4096 bytes, the proved-equal linear evaluator above. -/
+def parseStrDrv (c : DrvCodec) (b : Bytes) : Res Bytes :=
+  if b.length ≤ 4096 then parseToString c.body b else .ok (parseFast c.decQ b)
+
 def runOp (c : DrvCodec) (t : List String) : String :=
   match t with
   | ["format", h] | ["formatstr", h] =>
@@ -107,7 +120,7 @@ def runOp (c : DrvCodec) (t : List String) : String :=
   | ["parsestr", h] | ["parsebytes", h] =>
     match unhex h with
     | none => "bad-op"
-    | some b => showRes (parseToString c.body b)
+    | some b => showRes (parseStrDrv c b)
   | ["scalars", lo, hi] =>
     match lo.toNat?, hi.toNat? with
     | some lo, some hi =>
@@ -122,11 +135,23 @@ def runOp (c : DrvCodec) (t : List String) : String :=
         toString (foldRange (mixEscape c lower) (hi + 1 - lo) lo h0).toNat
       else "bad-op"
     | _, _, _ => "bad-op"
+  | ["parsen", h, n] =>
+    match unhex h, n.toNat? with
+    | some b, some n =>
+      if b.length ≤ n ∧ 4096 < b.length then
+        let o := parseFast c.decQ b
+        s!"{o.length} {hex o}"
+      else
+        match parse c.body (List.replicate n 0) b with
+        | .ok (k, dst) => if k ≤ dst.length then s!"{k} {hex (dst.take k)}" else "panic"
+        | .panic => "panic"
+        | .fuel => "timeout"
+    | _, _ => "bad-op"
   | ["roundtrip", h] =>
     match unhex h with
     | none => "bad-op"
     | some b => match c.format b with
-      | some o => showRes (parseToString c.body o)
+      | some o => showRes (parseStrDrv c o)
       | none => "panic"
   | _ => "bad-op"
 
